@@ -59,6 +59,29 @@ type finding struct {
 	Prop, Sig, What string
 }
 
+// srcDir: the tree to check. /repo unless VERIF_REPO names a scratch worktree
+// (used to try seeded changes without touching /repo; the registered checks
+// never set it).
+func srcDir() string {
+	if d := os.Getenv("VERIF_REPO"); d != "" {
+		return d
+	}
+	return repoDir
+}
+
+// outDir: where evidence and replays go. /verif, except when another tree is
+// being checked (VERIF_REPO), whose results must not overwrite the evidence of
+// /repo: then VERIF_OUT or a directory under the system temp dir.
+func outDir(vdir string) string {
+	if os.Getenv("VERIF_REPO") == "" {
+		return vdir
+	}
+	if d := os.Getenv("VERIF_OUT"); d != "" {
+		return d
+	}
+	return filepath.Join(os.TempDir(), "verif-alt-out")
+}
+
 func verifDir() string {
 	if d := os.Getenv("VERIF_DIR"); d != "" {
 		return d
@@ -128,7 +151,7 @@ func buildHarness(vdir, scratch string, race bool) (*build, error) {
 	var logs []string
 	for _, level := range []string{instrument.LevelA, instrument.LevelB, instrument.LevelC} {
 		odir := filepath.Join(scratch, "overlay-"+level)
-		ov, st, err := instrument.Build(repoDir, odir, level)
+		ov, st, err := instrument.BuildFrom(srcDir(), repoDir, odir, level)
 		if err != nil {
 			logs = append(logs, fmt.Sprintf("level %s: instrument: %v", level, err))
 			continue
@@ -436,7 +459,7 @@ func check(vdir, prop, tier string, seed int64, only int) int {
 		fmt.Fprintf(os.Stderr, "BROKEN: %v\n", err)
 		return 2
 	}
-	fmt.Printf("verif: property=%s tier=%s seed=%d instrumentation-level=%s race=%v rewritten-sites=%d\n", prop, tier, seed, b.Level, race, b.Stats.TotalEdit)
+	fmt.Printf("verif: property=%s tier=%s seed=%d tree=%s instrumentation-level=%s race=%v rewritten-sites=%d\n", prop, tier, seed, srcDir(), b.Level, race, b.Stats.TotalEdit)
 	// number of cases
 	cmd := exec.Command(b.Bin, "-prop", prop, "-tier", tier, "-count")
 	cb, err := cmd.Output()
@@ -594,16 +617,16 @@ func check(vdir, prop, tier string, seed int64, only int) int {
 		fmt.Printf("KNOWN-FINDING: property=%s %s (sig=%s, seen %d times)\n", prop, known[s].What, s, knownSeen[s])
 	}
 	exit := 0
-	os.MkdirAll(filepath.Join(vdir, "replays"), 0o755)
+	os.MkdirAll(filepath.Join(outDir(vdir), "replays"), 0o755)
 	if only < 0 {
-		old, _ := filepath.Glob(filepath.Join(vdir, "replays", prop+"-*.json"))
+		old, _ := filepath.Glob(filepath.Join(outDir(vdir), "replays", prop+"-*.json"))
 		for _, f := range old {
 			os.Remove(f)
 		}
 	}
 	for _, nv := range fresh {
 		name := fmt.Sprintf("%s-%d-%d-%s.json", prop, seed, nv.c.Case, sanitize(nv.v.Clause))
-		path := filepath.Join(vdir, "replays", name)
+		path := filepath.Join(outDir(vdir), "replays", name)
 		rb, _ := json.MarshalIndent(map[string]interface{}{
 			"prop": prop, "tier": tier, "seed": seed, "case": nv.c.Case, "sig": nv.v.Sig, "config": nv.c.Config,
 			"violation": nv.v, "occurrences": freshSigs[nv.v.Sig],
@@ -665,9 +688,9 @@ func check(vdir, prop, tier string, seed int64, only int) int {
 			"coverage": cov, "assumptions": meta.Assumptions,
 			"wall_s": time.Since(start).Seconds(), "violations": len(fresh),
 		}
-		os.MkdirAll(filepath.Join(vdir, "evidence"), 0o755)
+		os.MkdirAll(filepath.Join(outDir(vdir), "evidence"), 0o755)
 		eb, _ := json.MarshalIndent(ev, "", " ")
-		if err := os.WriteFile(filepath.Join(vdir, "evidence", prop+".json"), eb, 0o644); err != nil {
+		if err := os.WriteFile(filepath.Join(outDir(vdir), "evidence", prop+".json"), eb, 0o644); err != nil {
 			fmt.Fprintln(os.Stderr, "cannot write evidence:", err)
 			return 2
 		}
